@@ -154,6 +154,6 @@ Definition check_schema (fa fb : bool) (c : scase) : verdict :=
      v_prop := Bool.eqb (s_schema c) (s_loader c);
      v_guards := guards [(1%Z, probe_guard fa fb (s_probe c))] |}.
 
-Definition sc k t cf o c s l :=
-  {| s_probe := {| p_kind := k; p_type := t; p_config := cf; p_opts := o |};
+Definition sc k t cf o mi c s l :=
+  {| s_probe := {| p_kind := k; p_type := t; p_config := cf; p_opts := o; p_missing := mi |};
      s_controlled := c; s_schema := s; s_loader := l |}.
